@@ -303,6 +303,23 @@ theorem deepCopy_requires_complete : missing Fields.fieldsRequires Fields.deepCo
 theorem deepCopy_location_complete : missing Fields.fieldsLocation Fields.deepCopyLocation = [] := by decide
 theorem reader_include_complete : missing Fields.fieldsInclude Load.readerIncludeLiteral = [] := by decide
 
+/-- a key of a copy literal is filled from the field OF THE SAME NAME, as it is, through
+`deepcopy.Slice` / `deepcopy.Map`, or through the field's own `DeepCopy()` -/
+def ownKey (p : String × String × String) : Bool :=
+  p.1 == p.2.2 && (p.2.1 == "field" || p.2.1 == "DeepCopy" || p.2.1 == "deepcopy.Slice" || p.2.1 == "deepcopy.Map")
+
+/-- **every key of every `DeepCopy` literal is copied from its own field** (`Gen.Fields`
+`deepCopySources…`, regenerated: `Silent: t.Interactive`, a constant, or a field run through
+some other function breaks this): together with `deepCopy_…_complete` — every field is a
+key — the literal is the field-by-field copy `copyByKeys` assumes. -/
+theorem deepCopy_sources_own_key :
+    Fields.deepCopySourcesTask.all ownKey = true ∧ Fields.deepCopySourcesCmd.all ownKey = true
+    ∧ Fields.deepCopySourcesDep.all ownKey = true ∧ Fields.deepCopySourcesInclude.all ownKey = true
+    ∧ Fields.deepCopySourcesFor.all ownKey = true ∧ Fields.deepCopySourcesPrecondition.all ownKey = true
+    ∧ Fields.deepCopySourcesPlatform.all ownKey = true ∧ Fields.deepCopySourcesRequires.all ownKey = true
+    ∧ Fields.deepCopySourcesLocation.all ownKey = true
+    ∧ Fields.deepCopySourcesTask.map (·.1) = Fields.deepCopyTask := by decide
+
 /-- **C08_attrs.**  `Task.DeepCopy` (and the copies of the values it contains, and the
 include literal of the reader) carry every field of the struct, for every value; and the
 rest of `Tasks.Merge` leaves the attribute record, the task variables and the location
